@@ -45,8 +45,18 @@ class G[T](State):
     v: T
 
 
-FAMILY: dict[str, type] = {"A": A, "B": B, "R": R, "A2": A2, "G[int]": G[int], "G[str]": G[str], "G": G}
-DEFAULTABLE = {"A", "B", "A2"}  # constructible without arguments
+class F(State):  # unusual but legal: instances are falsy (truthiness must never stand in for presence)
+    v: int = 0
+
+    def __bool__(self) -> bool:
+        return False
+
+    def __len__(self) -> int:
+        return 0
+
+
+FAMILY: dict[str, type] = {"A": A, "B": B, "R": R, "A2": A2, "G[int]": G[int], "G[str]": G[str], "G": G, "F": F}
+DEFAULTABLE = {"A", "B", "A2", "F"}  # constructible without arguments
 
 
 def make_state(sv) -> State:
@@ -73,7 +83,14 @@ class MC(State):
     ids: Sequence[int]
 
 
-METRICS = {"MA": MA, "MB": MB, "MC": MC}
+class MF(State):  # a metric whose instances are falsy: presence must not be decided by truthiness
+    ids: Sequence[int]
+
+    def __bool__(self) -> bool:
+        return False
+
+
+METRICS = {"MA": MA, "MB": MB, "MC": MC, "MF": MF}
 
 
 class MergeErr(Exception):
@@ -188,6 +205,7 @@ class Run:
         self.loggers: dict = {}
         self.records: list = []
         self.completions: list = []
+        self.prepared: dict = {}
 
     # ------------------------------------------------------------------ helpers
     def ev(self, _ev, path, **kw):
@@ -205,14 +223,16 @@ class Run:
         return lbl if lbl is not None else ("unknown", type(obj).__name__, repr(obj))
 
     def gate(self, g):
+        """awaitable that completes when gate g is released; every waiter gets its own future (an Event), so that
+        cancelling one waiter never disturbs another one blocked on the same gate"""
         if g not in self.gates:
-            self.gates[g] = self.loop.create_future()
-        return self.gates[g]
+            self.gates[g] = asyncio.Event()
+        return self.gates[g].wait()
 
     def release(self, g):
-        f = self.gate(g)
-        if not f.done():
-            f.set_result(None)
+        if g not in self.gates:
+            self.gates[g] = asyncio.Event()
+        self.gates[g].set()
 
     def lookup(self, name, with_default):
         """-> ("val", label, obj) | ("MissingContext",) | ("MissingState",) | ("raised", repr)"""
@@ -243,6 +263,26 @@ class Run:
         for i, op in enumerate(ops):
             await self.op(op, path + (i,), owner, mscope)
 
+    def prepare(self, ops, path, depth=1):
+        """construct (not enter) the scope objects that ask to be prepared `depth` blocks above their position:
+        `s = ctx.scope(...)` evaluated in one place and entered later under other enclosing blocks"""
+        for i, op in enumerate(ops):
+            p = path + (i,)
+            if op["k"] in ("scope", "updated"):
+                if op["k"] == "scope" and op.get("prep") == depth and p not in self.prepared:
+                    states = [self.inst((p, "s", j), sv) for j, sv in enumerate(op.get("state", []))]
+                    self.prepared[p] = self.make_scope(op, p, states)
+                    self.ev("prepared", p)
+                if depth < 3:
+                    self.prepare(op["body"], p, depth + 1)
+
+    def make_scope(self, op, path, states):
+        kw = self.scope_kwargs(op, path)
+        if op.get("mode") == "async" and op.get("disp") is not None:
+            doubles = [Double(self, path, j, d) for j, d in enumerate(op["disp"])]
+            kw["disposables"] = Disposables(*doubles) if op.get("disp_obj") else doubles
+        return ctx.scope(op["name"], *states, **kw)
+
     async def op(self, op, path, owner, mscope=None):  # noqa: C901, PLR0912
         k = op["k"]
         if k in ("scope", "updated"):
@@ -268,6 +308,16 @@ class Run:
             self.record(op, path, mscope)
         elif k == "log":
             self.do_log(op, path, mscope)
+        elif k == "try_finally":
+            # user code with cleanup: the final ops run however the body ends (also on cancellation)
+            try:
+                await self.ops(op["body"], path + ("b",), owner, mscope)
+            finally:
+                try:
+                    await self.ops(op["final"], path + ("f",), owner, mscope)
+                except RuntimeError as exc:
+                    # e.g. spawning into a task group that is shutting down is refused by asyncio
+                    self.ev("final_refused", path, exc=exc)
         elif k == "check_cancellation":
             try:
                 ctx.check_cancellation()
@@ -349,20 +399,21 @@ class Run:
             if op["k"] == "updated":
                 with ctx.updated(*states):
                     self.ev("body_start", path)
+                    self.prepare(op["body"], path)
                     await self.ops(op["body"], path, owner, mscope)
                     self.ev("body_end", path)
             elif op["mode"] == "sync":
-                with ctx.scope(op["name"], *states, **self.scope_kwargs(op, path)):
+                cm = self.prepared.pop(path, None) or self.make_scope(op, path, states)
+                with cm:
                     self.ev("body_start", path)
+                    self.prepare(op["body"], path)
                     await self.ops(op["body"], path, owner, path)
                     self.ev("body_end", path)
             else:
-                kw = self.scope_kwargs(op, path)
-                if op.get("disp") is not None:
-                    doubles = [Double(self, path, j, d) for j, d in enumerate(op["disp"])]
-                    kw["disposables"] = Disposables(*doubles) if op.get("disp_obj") else doubles
-                async with ctx.scope(op["name"], *states, **kw):
+                cm = self.prepared.pop(path, None) or self.make_scope(op, path, states)
+                async with cm:
                     self.ev("body_start", path)
+                    self.prepare(op["body"], path)
                     await self.ops(op["body"], path, path, path)
                     self.ev("body_end", path)
         except BaseException as exc:
@@ -529,7 +580,7 @@ def execute(prog, inject_at=None, releases=(), run_cls=Run, after=None):
 def sv_strategy():
     from hypothesis import strategies as st
 
-    names = ["A", "A", "B", "R", "A2", "G[int]", "G[str]", "G"]
+    names = ["A", "A", "B", "R", "A2", "G[int]", "G[str]", "G", "F"]
     return st.builds(lambda n, v: {"type": n, "v": v}, st.sampled_from(names), st.integers(1, 9))
 
 
@@ -554,3 +605,6 @@ def walk_blocks(ops, path=()):
             yield from walk_blocks(op["body"], p)
         elif op["k"] == "spawn":
             yield from walk_blocks(op["body"], p + ("t",))
+        elif op["k"] == "try_finally":
+            yield from walk_blocks(op["body"], p + ("b",))
+            yield from walk_blocks(op["final"], p + ("f",))
